@@ -2,6 +2,7 @@ import LassoProofs.Lemmas.Clone
 import LassoProofs.C02
 import LassoModel.Extracted
 import LassoProofs.Lemmas.Config
+import LassoProofs.Lemmas.CloneInterp
 /-
   C12 — a clone is equal in content and completely independent of its source.
 
@@ -123,6 +124,15 @@ theorem clone_follows_model :
       [.loopBegin, .store, .propagate, .stringsPush, .hashOne, .probe, .keyCheck .loopIndex, .reject, .tableInsert,
        .loopEnd] := by
   decide
+
+/-- Stronger than comparing sequences: the copy loop's regenerated effect sequence is given a semantics
+(`LassoModel/CloneInterp.lean`) and running it is the model's `Rodeo.cloneInto`, for every source list, start
+index, table, vector, arena and growth oracle: store and propagate a failure, push, hash, probe (an occupied
+entry is the `unreachable!`), key check on the position and the key-space error, insert. -/
+theorem clone_loop_runs_the_source (env : Env) (N : Nat) (grow : Bool) (src : List Bytes) (idx : Nat) (t : Table)
+    (ss : List StrRef) (a : Arena) :
+    interpCloneInto env N grow Extracted.cloneCopyEffects src idx t ss a = Rodeo.cloneInto env N grow src idx t ss a :=
+  interp_clone_is_model env N grow src idx t ss a
 
 /-- The code this file's theorems are about is the same under every feature configuration: the regenerated
 census of conditional compilation contains import blocks, whole serde impls, optional-dependency impls and
